@@ -31,5 +31,7 @@ def build(ctx: RunCtx) -> Prop:
         min_obligations=100,
         # runner side (verified in the C11 module's registry): kill-and-reroute ends final or available-and-queued; the thread runner's loop
         # iteration takes over every invocation its poll claimed (drains the generator, so that the poll's own re-routing code runs)
-        parts=[("contracts.c11", ["pynenc.runner.base_runner:BaseRunner._kill_and_reroute", "pynenc.runner.thread_runner:ThreadRunner.runner_loop_iteration"])],
+        # a replacement worker gets an id no tracked worker has (recovery recognises a dead owner by its id: C04)
+        parts=[("contracts.c11", ["pynenc.runner.base_runner:BaseRunner._kill_and_reroute", "pynenc.runner.thread_runner:ThreadRunner.runner_loop_iteration"]),
+               ("contracts.c14", ["pynenc.runner.persistent_process_runner:PersistentProcessRunner._spawn_persistent_process"])],
     )
